@@ -316,8 +316,5 @@ def run(ctx: Ctx) -> int:
 
 def replay(ctx: Ctx, path: str) -> int:
     import json
-    case = json.load(open(path))["case"]
-    rej = ctx.validate_vectors("Trace_C12", [case])
-    for i, clause in rej:
-        ctx.violation("command frame", clause, case)
-    return ctx.finish(rule="replay of one recorded frame (re-judged by TLC; regenerate from the code with the quick check)")
+    from ..common import NotReplayable
+    raise NotReplayable("a recorded frame is not re-executed on its own: the check is re-run with the recorded seed")
